@@ -144,7 +144,7 @@ func genC20(t *Tape, tier string) *Scenario {
 			sc.YieldPark = Dur(1+t.Intn(6)) * 100 * time.Microsecond
 		}
 		sc.YieldPoints = []string{"server.close", "server.shutdown"}
-		for _, p := range []string{"conn.reset", "conn.bdat.open", "conn.bdat.last", "conn.loop"} {
+		for _, p := range []string{"conn.reset", "conn.bdat.open", "conn.bdat.last", "conn.loop", "conn.woken"} {
 			if t.Bool() {
 				sc.YieldPoints = append(sc.YieldPoints, p)
 				x.LoopYield = true
